@@ -106,9 +106,8 @@ Proof.
   - destruct (beqb c x0a).
     + apply IH. apply inv0_set_need_cr, inv0_set_begin_content, inv0_set_begin_line, inv0_set_last_breakable, inv0_set_column. exact H.
     + apply IH. apply inv0_set_need_cr, inv0_set_begin_content, inv0_set_begin_line, inv0_set_last_breakable, inv0_set_column.
-      destruct (N.ltb 1 (need_cr s)).
-      * apply inv0_extend_prefix. apply inv0_push_ascii; [exact H | reflexivity].
-      * apply inv0_push_ascii; [exact H | reflexivity].
+      apply inv0_push_ascii; [|reflexivity].
+      destruct (rv s) as [|l v']; [exact H|]. destruct (beqb l x0a); [apply inv0_extend_prefix|]; exact H.
 Qed.
 
 (* ---- one step ---- *)
@@ -139,7 +138,7 @@ Proof.
     destruct (ascii_step q x20 q' eq_refl Hs) as [-> ->].
     destruct (negb (begin_line s)) eqn:Ebl.
     + cbn [fst]. split; [|intros _; reflexivity].
-      destruct (negb (head_is_digit (drop_spaces rest)));
+      destruct (negb (head_no_break (drop_spaces rest)));
         [apply inv0_set_last_breakable|]; apply inv0_set_begin_content, inv0_set_begin_line, inv0_set_column;
         (apply inv0_push_ascii; [exact H0 | reflexivity]).
     + cbn [fst]. split; [exact H0 | intros _; reflexivity].
@@ -203,13 +202,7 @@ Proof. apply forall_bytes. vm_compute. reflexivity. Qed.
 Lemma ent_ascii : forall c, forallb is_ascii ([x26; x23] ++ dec (bN c) ++ [x3b]) = true.
 Proof. apply forall_bytes. vm_compute. reflexivity. Qed.
 
-Lemma write_all_inv0 buf s : Inv0 s U0 -> forallb is_ascii buf = true -> Inv0 (write_all 0%N buf s) U0.
-Proof.
-  intros H0 Hb. unfold write_all. destruct buf as [|b r]; [exact H0|]. unfold output_lit.
-  apply output_gen_inv; [left; reflexivity | exact H0 | apply urun_ascii; exact Hb].
-Qed.
-
-Lemma outc_is_ok : outc_ok (outc 0%N).
+Lemma outc_is_ok : outc_ok outc.
 Proof.
   intros c e nc s q q' H0 Hs. unfold outc.
   match goal with |- context [if ?b then _ else _] => destruct b eqn:En end.
@@ -221,7 +214,7 @@ Proof.
     + apply inv0_set_column. apply inv0_extend; [exact H0 | apply pct_ascii].
     + destruct (ispunct c).
       * apply inv0_set_column. apply inv0_extend; [exact H0|]. cbn [forallb]. rewrite Hc. reflexivity.
-      * apply inv0_set_column. apply write_all_inv0; [exact H0 | apply ent_ascii].
+      * apply inv0_set_column. apply inv0_extend; [exact H0 | apply ent_ascii].
   - apply inv0_set_column. eapply inv0_push; [exact H0 | exact Hs].
 Qed.
 
@@ -234,6 +227,6 @@ Proof.
   unfold utf8_valid. intros Hv Hp Hb. apply utf8_run_urun in Hv. apply utf8_run_urun in Hb.
   apply utf8_run_urun.
   assert (Inv0 s U0) as H0 by (split; [exact Hv | exact Hp]).
-  pose proof (output_gen_inv (outc 0%N) buf wrap e s U0 (or_intror outc_is_ok) H0 Hb) as [H _].
+  pose proof (output_gen_inv outc buf wrap e s U0 (or_intror outc_is_ok) H0 Hb) as [H _].
   exact H.
 Qed.
